@@ -16,7 +16,7 @@ from . import refast
 
 INT_PROFILES = [[1, 2], [1, 2, 3], [-2, -1, 0, 1, 7], [0, 1, 2, 3, -1, 5], [2, 4, 5], [0, 1], [3, 6, 7, 9]]
 SYM_POOL = ["a", "b", "c"]
-FAMILIES = ["empty", "one", "small", "medium", "full", "grouped", "const", "small", "medium", "sparse", "negative", "full", "one", "grouped", "const", "medium"]
+FAMILIES = ["empty", "one", "small", "medium", "full", "copies", "const", "small", "medium", "sparse", "negative", "full", "one", "grouped", "const", "medium"]
 
 
 class _UF:
@@ -90,6 +90,25 @@ def analyse(prg: list[AST]) -> dict:
                 for v in set(refast.variables(arg)):
                     if v != "_":
                         uf.union((name, sig[1], i), ("var", si, v))
+    # self joins: positions in which two atoms over one predicate in one statement differ (p(A,X), p(B,X) -> position 0)
+    selfjoin: dict = {}
+    for stm in prg:
+        by_sig: dict = {}
+        for n in refast.walk(stm):
+            if n.ast_type != ASTType.SymbolicAtom:
+                continue
+            sig = refast.atom_sig(n)
+            if not sig or sig[1] == 0:
+                continue
+            sym = n.symbol
+            while sym.ast_type == ASTType.UnaryOperation:
+                sym = sym.argument
+            by_sig.setdefault((("-" if sig[2] else "") + sig[0], sig[1]), []).append([str(a) for a in sym.arguments])
+        for key, occ in by_sig.items():
+            for a, b in itertools.combinations(occ, 2):
+                diff = {i for i in range(len(a)) if a[i] != b[i]}
+                if diff:
+                    selfjoin.setdefault(key, set()).update(diff)
     classes: dict = {}
     for key in list(uf.p):
         if key[0] != "var":
@@ -98,7 +117,7 @@ def analyse(prg: list[AST]) -> dict:
     for root, members in classes.items():
         if any((m[0].lstrip("-"), m[1], m[2]) in numeric for m in members):
             numeric_classes.add(root)
-    return {"uf": uf, "numeric_classes": numeric_classes, "ints": _int_constants(prg), "syms": _sym_constants(prg)}
+    return {"uf": uf, "numeric_classes": numeric_classes, "ints": _int_constants(prg), "syms": _sym_constants(prg), "selfjoin": selfjoin}
 
 
 def gen_instances(
@@ -120,6 +139,11 @@ def gen_instances(
             break
         rng = random.Random(f"{seed}:{k}")
         fam = FAMILIES[k % len(FAMILIES)]
+        if info.get("selfjoin"):
+            if k % 2 == 1 and k > 1:
+                fam = "copies"  # programs with self joins: every second instance is built from copies
+        elif fam == "copies":
+            fam = "grouped"
         if fam == "empty":
             inst: list[str] = []
         else:
@@ -137,7 +161,7 @@ def gen_instances(
             def pool(pos: tuple) -> list:
                 root = uf.find(pos)
                 if root not in pools:
-                    size = {"one": 1, "small": 2, "sparse": 3}.get(fam, rng.choice([2, 3]))
+                    size = {"one": 1, "small": 2, "sparse": 3, "copies": 4}.get(fam, rng.choice([2, 3]))
                     if root in info["numeric_classes"] or all_int:
                         vals = rng.sample(profile, min(size, len(profile)))
                     else:
@@ -158,6 +182,27 @@ def gen_instances(
                         inst.append(name)
                     continue
                 cols = [pool((name, arity, i)) for i in range(arity)]
+                vary = sorted(info.get("selfjoin", {}).get((name, arity), ())) if fam == "copies" else []
+                if vary:
+                    # k copies of a base tuple that differ in the self-joined positions only; every predicate draws its own
+                    # values, so two joins over the same compared variables see different value sets
+                    for _ in range(rng.choice([1, 1, 2])):
+                        base = [rng.choice(c) for c in cols]
+                        copies = rng.choice([1, 2, 2, 3])
+                        if rng.random() < 0.5:  # the varied positions change together
+                            picks = [rng.sample(cols[i], min(copies, len(cols[i]))) for i in vary]
+                            for j in range(min(len(p) for p in picks)):
+                                tup = list(base)
+                                for i, p in zip(vary, picks):
+                                    tup[i] = p[j]
+                                inst.append(f"{name}({','.join(tup)})")
+                        else:  # one position at a time
+                            i = rng.choice(vary)
+                            for v in rng.sample(cols[i], min(copies, len(cols[i]))):
+                                tup = list(base)
+                                tup[i] = v
+                                inst.append(f"{name}({','.join(tup)})")
+                    continue
                 cand = list(itertools.islice(itertools.product(*cols), 64))
                 rng.shuffle(cand)
                 if fam == "one":
